@@ -114,4 +114,10 @@ def generate(outdir):
         rc, out = repo.run_sbeppc(x, inc)
         if rc != 0:
             raise RuntimeError("sbeppc rejected the library schema %s: rc=%s %s" % (name, rc, out[-2000:]))
+    with open(os.path.join(inc, "lib_expect.hpp"), "w") as fh:
+        fh.write("// generated from vlib/libschema.py EXPLICIT: what the *_x types state in the XML\n#pragma once\n")
+        for p, (mn, mx, nl) in EXPLICIT.items():
+            suf = {"uint64": "ull", "int64": "ll", "uint32": "u", "float": "f"}.get(p, "")
+            for k, v in (("MIN", mn), ("MAX", mx), ("NULL", nl)):
+                fh.write("#define EXP_%s_%s (%s%s)\n" % (p, k, v, suf))
     return inc
